@@ -704,7 +704,7 @@ def rule_time(repo, tier):
 def _rules_core(repo, tier):
     from ..fresh import rule_fresh
     from ..conf import rule_conf
-    return [rule_pure13(repo, tier), rule_sym(repo, tier), rule_innov(repo, tier), rule_gain(repo, tier), rule_xcov(repo, tier), rule_orient(repo, tier), rule_pf(repo, tier), rule_inverse(repo, tier), rule_sigma(repo, tier), rule_time(repo, tier),
+    return [__import__('sa.rules.c15', fromlist=['x']).rule_adv(repo, 'C13.ADV'), rule_pure13(repo, tier), rule_sym(repo, tier), rule_innov(repo, tier), rule_gain(repo, tier), rule_xcov(repo, tier), rule_orient(repo, tier), rule_pf(repo, tier), rule_inverse(repo, tier), rule_sigma(repo, tier), rule_time(repo, tier),
             rule_conf(repo, 'C13.CONF', [(EKF, 'EKF'), (UKF, 'UKF'), (PF, 'PF')]),
             rule_fresh(repo, 'C13.FRESH', 'nothing a filter step writes in place is loaded from the filter object: work tensors are allocated per step',
                        [(EKF, 'EKF.forward'), (UKF, 'UKF.forward'), (UKF, 'UKF.sigma_weight_points'), (UKF, 'UKF.compute_cov'), (PF, 'PF.forward'),
